@@ -25,6 +25,12 @@ whose `ndsMask` is the pre-filter `hypervolume` calls first):
    list becomes: per dimension the static sorted order of node ids plus the list
    of ids currently linked (`active`); node fields live in a state that is
    threaded through the recursion.
+
+The model describes the code **after** the two repairs on branch `fix-g8`
+(9767936: running product in the area initialisation, ecd8f06: `preProcess` sorts
+from the last dimension down).  The pinned behaviour is kept behind two switches
+(`cum`, `topDown`; `hypervolumeCodeV false false` = pinned code) for the regression
+examples in `Props/C12.lean` and for classifying failing inputs in the harness.
 -/
 
 namespace DH.Hypervolume
